@@ -186,6 +186,25 @@ def gen_scenario(rng, nsec=None, kinds=None, fmts=None, **kw):
     return base_scenario(rng, secs, **kw)
 
 
+def top_section(rng, path, fmt, how):
+    """a diff without context (-U0) whose first hunk adds lines in front of line 1 ('-0,0 +1,n') or removes the first lines
+    ('-1,n +0,0'): the ranges alone look like a creation / a deletion, the file exists before and after"""
+    a = [(gen.rand_text(rng, True) + str(i_), "L") for i_ in range(rng.randint(2, 6))]
+    k = rng.randint(1, 2)
+    if how == "add-top":
+        ops = [("+", ("top%d" % i_, "L")) for i_ in range(k)] + [(" ", l) for l in a]
+    else:
+        k = min(k, len(a) - 1)
+        ops = [("-", l) for l in a[:k]] + [(" ", l) for l in a[k:]]
+    if rng.random() < 0.5 and len(a) > 3:
+        j = len(ops) - 1
+        ops[j] = ("-", ops[j][1]); ops.append(("+", ("tail", "L")))
+    hs = gen.hunks_from_ops(ops, 0)
+    text = emit.emit_git(path, path, hs, kind="change") if fmt == "git" else emit.emit_unified("a/" + path, "b/" + path, hs)
+    return dict(path=path, newpath=path, a=[l for o, l in ops if o != "+"], b=[l for o, l in ops if o != "-"], text=text, fmt=fmt, kind="change", hs=hs, ops=ops,
+                mode_old=None, mode_new=None, w=0)
+
+
 def same_file_scenario(rng, opts=None, git=False):
     """several sections hit the same file in one run: delete f / change g / create f / change g again (or create-then-modify)"""
     fmt = "git" if git else "unified"
